@@ -40,6 +40,7 @@ type Profile struct {
 	OptShapes      bool // bias towards shapes the optimizer rewrites (x*0, x+0, copies, constant branches)
 	FreeVars       bool // declare fv0:int fv1:bool fv2:str as untyped-at-runtime inputs (C03/C15)
 	RareIndexSet bool // `a[i] = v` / `$ o.f = v` statements are rare (the compiler has no case for them: the whole module falls back to the interpreter)
+	ObserveAll int  // percent of routes whose last return of a route also returns every route-scope variable
 	Moods      bool // draw a per-case mood: clean (well-typed program, well-formed requests), mild, or the profile's full fault rate
 	Exclude    map[string]bool
 }
@@ -90,6 +91,7 @@ type G struct {
 	ill      int // effective ill-typed percentage of this case (profile value scaled by the mood)
 	mood     int // 0 full, 1 mild, 2 clean
 	routeRet string
+	csePool  map[string][]*Node // small operator expressions already used in this body, by type
 }
 
 // rapid's integer generators are deliberately biased towards small values, which
@@ -853,7 +855,58 @@ func (g *G) declStmt() *Node {
 	return NS("decl", n, val)
 }
 
+// cseShape: a small operator expression over variables and literals, or a near-duplicate of one
+// produced earlier in this body (identical, or with the operands the other way round). This is
+// the shape common-subexpression elimination keys on; with `+` on strings and arrays, `-`, `/`
+// and the relational operators the operand order matters.
+func (g *G) cseShape(ty string) *Node {
+	if pool := g.csePool[ty]; len(pool) > 0 && g.pct("csedup", 55) {
+		e := pool[g.n("csepick", len(pool))].Clone()
+		if g.pct("cseswap", 45) {
+			e.C[0], e.C[1] = e.C[1], e.C[0]
+			g.event("cse-swapped-duplicate")
+		} else {
+			g.event("cse-duplicate")
+		}
+		return e
+	}
+	opnd := func(t string) *Node {
+		if vs := g.visible(t, false); len(vs) > 0 && g.pct("csevar", 75) {
+			return Var(g.pick("csev", vs))
+		}
+		return g.lit(t)
+	}
+	var e *Node
+	switch ty {
+	case "int":
+		e = Bin(g.pick("cseiop", []string{"+", "*", "-", "+"}), opnd("int"), opnd("int"))
+	case "str":
+		e = Bin("+", opnd("str"), opnd("str"))
+	case "bool":
+		if g.pct("csebk", 50) {
+			e = Bin(g.pick("csecmp", []string{"<", "<=", "==", "!=", ">"}), opnd("int"), opnd("int"))
+		} else {
+			e = Bin(g.pick("cselog", []string{"&&", "||"}), opnd("bool"), opnd("bool"))
+		}
+	case "[int]":
+		e = Bin("+", opnd("[int]"), opnd("[int]"))
+	default:
+		return nil
+	}
+	if g.csePool == nil {
+		g.csePool = map[string][]*Node{}
+	}
+	g.csePool[ty] = append(g.csePool[ty], e)
+	g.event("cse-candidate")
+	return e.Clone()
+}
+
 func (g *G) valueFor(ty string) *Node {
+	if g.p.OptShapes && g.pct("cseval", 22) {
+		if e := g.cseShape(ty); e != nil {
+			return e
+		}
+	}
 	if g.p.OptShapes && g.pct("optval", 45) {
 		if vs := g.visible(ty, false); len(vs) > 0 && g.pct("copy", 50) {
 			g.event("copy-assignment")
@@ -958,6 +1011,11 @@ func (g *G) stmt() *Node {
 			v.mut = false
 			if g.loop > 0 && (v.ty == "str" || v.ty == "[int]") {
 				return NS("reassign", n, g.growSafe(v.ty))
+			}
+			if g.p.OptShapes && g.pct("csere", 15) {
+				if e := g.cseShape(v.ty); e != nil {
+					return NS("reassign", n, e)
+				}
 			}
 			if g.p.OptShapes && g.pct("optre", 45) {
 				if g.pct("relit", 50) {
@@ -1294,7 +1352,7 @@ var pathVals = []string{"7", "abc", "x1", "0", "-3", "2.5", "true", "Hello", "a 
 
 func (g *G) genRoute(idx int) (Route, []Request) {
 	r := Route{Method: "GET", Path: fmt.Sprintf("/r%d", idx)}
-	g.scopes, g.dead = nil, nil
+	g.scopes, g.dead, g.csePool = nil, nil, nil
 	g.push() // route scope
 	var pnames []string
 	hasBody := false
@@ -1360,6 +1418,21 @@ func (g *G) genRoute(idx int) (Route, []Request) {
 	}
 	if body.C[len(body.C)-1].K != "ret" {
 		body.C = append(body.C, g.retStmt())
+	}
+	if g.p.ObserveAll > 0 && g.pct("observe", g.p.ObserveAll) {
+		// the final return also hands back every variable of the route scope, so that a wrong
+		// value left in a variable nobody reads afterwards is still observed
+		last := body.C[len(body.C)-1]
+		obs := N("arr", last.C[0])
+		for _, n := range g.visible("", false) {
+			if v := g.lookup(n); v != nil && !v.pat && !strings.HasPrefix(n, "fv") && n != "input" {
+				obs.C = append(obs.C, Var(n))
+			}
+		}
+		if len(obs.C) > 1 {
+			last.C[0] = obs
+			g.event("observe-all-variables")
+		}
 	}
 	// a return type on some routes
 	last := body.C[len(body.C)-1]
